@@ -784,7 +784,7 @@ def strip(o):
 
 def check_apply(R):
     rng = R.rng
-    ncases = int(os.environ.get("C12_NAPPLY", 140 if R.quick else 1500))
+    ncases = int(os.environ.get("C12_NAPPLY", 260 if R.quick else 2500))
     mlines, mobs, mcap = [], [], (6000 if R.quick else 120000)
     for ci in range(ncases):
         nleaves = rng.choice([1, 2, 2, 3, 3, 4, 4, 5, 5, 6, 7, 8]) if ci % 4 else rng.choice([3, 4, 5])
@@ -892,6 +892,13 @@ def run_writer(case, sched):
             o["status"] = "ok"
             o["never_run"] = s.never_run
             o["nran"] = len(s.ran)
+            o["ran"] = list(s.ran)
+            o["root_keys"] = list(r.keys())
+            if op.startswith("consolidate"):
+                try:
+                    o["storage"] = r._consolidated["storage"][: 48 * len(tree_leaves(spec))].view(torch.int64).tolist()
+                except Exception as e:  # noqa: BLE001
+                    o["storage"] = "raise " + type(e).__name__
             if op.startswith("consolidate"):
                 o.update({"ret": "new", "tree": obs_tree(r), "src": obs_tree(td),
                           "key_order": [list(k) if isinstance(k, tuple) else [k] for k in r.keys(True, True)],
@@ -917,12 +924,62 @@ def run_writer(case, sched):
 def strip_w(o):
     if o["status"] == "raise":
         return {"status": "raise"}
-    return {k: v for k, v in o.items() if k not in ("never_run", "nran", "key_order")}
+    return {k: v for k, v in o.items() if k not in ("never_run", "nran", "key_order", "ran", "root_keys", "storage")}
+
+
+def memmap_submissions(spec, with_meta, path=()):
+    """the writer tasks _memmap_ submits, in submission order: ("leaf", path) / ("meta", path)"""
+    subs = []
+    for k, v in spec:
+        if isinstance(v, list):
+            subs += memmap_submissions(v, with_meta, path + (k,))
+        else:
+            subs.append(("leaf", path + (k,)))
+    if with_meta:
+        subs.append(("meta", path))
+    return subs
+
+
+def writer_model_line(case, sched, obs):
+    """the sequence of writes into the ROOT destination dict implied by the schedule, for the model's run_writes:
+    the main thread attaches a nested node when it has walked it; an eager task writes when submitted; the pending
+    tasks write, in completion order, when the main thread waits.  consolidate: the assign tasks in completion order."""
+    spec, op = case["spec"], case["writer"]
+    order, eager = sched
+    if op.startswith("consolidate"):
+        n = len(tree_leaves(spec))
+        lids = [v // 1000 for v in obs["storage"][::6]]       # every chunk starts with leaf_id * 1000
+        chunks = [[lid * 1000 + j for j in range(6)] for lid in lids]
+        ws = [[6 * i, chunks[i]] for i in obs["ran"] if i < n]
+        return sx([Sym("run-assign"), ws, [0] * (6 * n)]), ("assign", obs["storage"])
+    with_meta = bool(case["prefix"])
+    subs = memmap_submissions(spec, with_meta)
+    idx_of = {s_: i for i, s_ in enumerate(subs)}
+    timed = []
+    count = 0
+    for k, v in spec:
+        if isinstance(v, list):
+            count += len(memmap_submissions(v, with_meta))
+            timed.append((count - 0.5, [k], 0))
+        else:
+            i = idx_of[("leaf", (k,))]
+            count += 1
+            if i in eager:
+                timed.append((i, [k], v))
+    for pos, i in enumerate(obs["ran"]):
+        if i not in eager and i < len(subs) and subs[i][0] == "leaf" and len(subs[i][1]) == 1:
+            leaf_id = dict((kk, vv) for kk, vv in spec)[subs[i][1][0]]
+            timed.append((10 ** 6 + pos, [subs[i][1][0]], leaf_id))
+    timed.sort(key=lambda t: t[0])
+    ops = [[p_, v] for _, p_, v in timed]
+    d0 = [[[k], -1] for k, _ in spec] if op == "memmap_" else []
+    return sx([Sym("run-writes"), ops, d0]), ("keys", obs["root_keys"])
 
 
 def check_writers(R):
     rng = R.rng
-    ncases = int(os.environ.get("C12_NWRITERS", 60 if R.quick else 600))
+    ncases = int(os.environ.get("C12_NWRITERS", 120 if R.quick else 1000))
+    wlines, wobs = [], []
     for ci in range(ncases):
         nleaves = rng.choice([1, 2, 3, 3, 4, 4, 5, 6])
         spec = gen_tree(rng, nleaves, depth=2)
@@ -945,6 +1002,10 @@ def check_writers(R):
             outcomes[json.dumps(strip_w(mt), sort_keys=True)] = (order, eager)
             if mt["status"] == "ok" and st["status"] == "ok" and mt["key_order"] != st["key_order"]:
                 R.count("writer:key-order-differs-from-single-thread (not judged)")
+            if mt["status"] == "ok" and not case.get("preexisting") and len(wlines) < (4000 if R.quick else 40000) and (not op.startswith("consolidate") or isinstance(mt.get("storage"), list)):
+                line, want = writer_model_line(case, (order, eager), mt)
+                wlines.append(line)
+                wobs.append((dict(case, schedule={"order": order, "eager": eager}), want))
             if strip_w(mt) != strip_w(st):
                 what = "status" if mt["status"] != st["status"] else next(k for k in mt if k in st and mt[k] != st[k] and k not in ("never_run", "nran", "key_order"))
                 R.oracle_fail("mt-writer:differs-from-single-thread", dict(case, schedule={"order": order, "eager": eager}),
@@ -959,6 +1020,15 @@ def check_writers(R):
             R.oracle_fail("mt-writer:order-dependent", dict(case, schedule={"order": o1, "eager": e1}, schedule2={"order": o2, "eager": e2}),
                           {"distinct_outcomes": len(outcomes)}, {"call": op.split("-")[0], "kind": "order-dependent"})
         R.extra["schedules_run"] = R.extra.get("schedules_run", 0) + len(scheds)
+    mod = R.model(wlines)
+    for (case, (kind, want)), m in zip(wobs, mod):
+        if kind == "keys":
+            got = [p_[0] for p_, _ in m]
+            if got != want:
+                R.mismatch("writer:root-key-order", case, want, got)
+        elif m != want:
+            R.mismatch("consolidate:storage", case, want, m)
+    R.extra["writer_model_comparisons"] = len(wlines)
 
 
 
@@ -1084,19 +1154,88 @@ def main(R):
     real_cases = gen_real_cases(rng, n_fork, n_spawn)
     spawn_runner = RealRunner([c for c in real_cases if c["start"] == "spawn"], budget=150 if R.quick else 900)
     fork_runner = RealRunner([c for c in real_cases if c["start"] == "fork"], budget=120 if R.quick else 900)
+    tm = {}
     try:
+        t = time.time()
         check_split(R)
         check_shuffle(R)
-        cases = [gen_map_case(rng) for _ in range(1500 if R.quick else 30000)]
+        tm["split_s"] = round(time.time() - t, 1)
+        t = time.time()
+        cases = [gen_map_case(rng) for _ in range(3000 if R.quick else 40000)]
         observations = run_inproc_maps(R, cases)
         compare_map_model(R, cases, observations)
+        tm["inproc_maps_s"] = round(time.time() - t, 1)
+        t = time.time()
         check_apply(R)
+        tm["apply_s"] = round(time.time() - t, 1)
+        t = time.time()
         check_writers(R)
+        tm["writers_s"] = round(time.time() - t, 1)
     finally:
+        t = time.time()
         judge_real(R, fork_runner, "fork")
         judge_real(R, spawn_runner, "spawn")
+        tm["waiting_for_real_pools_s"] = round(time.time() - t, 1)
+        R.extra["section_wall"] = tm
     R.exhaustive = False
 
 
 def replay(body):
+    """re-executes one recorded case against the implementation, the oracle and the extracted model"""
+    from .core import build_driver, run_model
+    torch.set_num_threads(1)
+    if body.get("kind") == "no-failing-input-found":
+        print(json.dumps(body["no_longer_checks"], indent=1, default=str)[:6000])
+        print("(no concrete failing input was recorded: the entries above name the theorem / correspondence that no longer checks)")
+        return 0
+    build_driver(PID)
+    case = body["case"]
+    op = case.get("op", "map")
+    print("case:", json.dumps(case))
+    if op == "map":
+        exp = oracle_map(case)
+        if case.get("start") in ("fork", "spawn"):
+            runner = RealRunner([case], budget=120)
+            res, timed_out, rc, tail = runner.collect()
+            obs = res[0] if res else {"status": "timeout"}
+        else:
+            obs = M.run_map_case(case)
+        print("implementation:", json.dumps(obs, default=str)[:3000])
+        print("sequential form: pieces", exp["pieces"], "result", None if exp["ret"] is None else exp["ret"]["y"].reshape(-1).tolist(),
+              "out", exp["out"]["y"].reshape(-1).tolist() if "out" in exp else None)
+        if not case.get("iter"):
+            print("model:", run_model(PID, [model_map_line(case)]))
+            if obs["status"] in ("ok", "raise"):
+                print("implementation in the model's vocabulary:", impl_map_canon(case, obs))
+    elif op == "split":
+        n, cs, nc, nw, gen = case["n"], case["chunksize"], case["num_chunks"], case["workers"], case["gen"]
+        print("implementation delegates to:", split_args_impl(n, cs, nc, nw, gen))
+        if "bs" in case:
+            x, w = M.make_leaves(case["bs"])
+            td = M.td_from(x, w, case["bs"])
+            d = case["dim"] % len(case["bs"])
+            got = call(lambda: list(TU._split_tensordict(td, cs, nc, nw, d, use_generator=gen)))
+            print("pieces on a real tensordict:", got[1] if got[0] == "raise" else [p["pos"] for p in pieces_of_real(td, d, got[1], cs == 0)])
+        print("torch referent sizes:", spec_sizes(n, cs, nc, nw))
+        print("model:", run_model(PID, [sx([Sym("split-call"), n, some(cs), some(nc), nw, gen, False]), sx([Sym("pieces"), n, some(cs), some(nc), nw, gen])]))
+    elif op in ("td-split", "td-chunk"):
+        print("model:", run_model(PID, [sx([Sym(op), case["n"], case["k"]])]))
+    elif op == "shuffle":
+        print("re-run with the same seed; model: shuffle_pieces of the observed permutation")
+    elif op == "apply":
+        sched = case.get("schedule") or {"order": [], "eager": []}
+        st = run_apply(case, None)
+        mt = run_apply(case, (sched["order"], sched["eager"]))
+        print("single-threaded:", json.dumps(strip(st), default=str)[:2500])
+        print("multithreaded under the schedule:", json.dumps(strip(mt), default=str)[:2500])
+        if not case["lazy"] and not case["names"]:
+            print("model:", run_model(PID, [apply_model_lines(case, None), apply_model_lines(case, mt.get("ran", []))]))
+        print("signature:", apply_signature(case))
+    elif op == "writer":
+        sched = case.get("schedule") or {"order": [], "eager": []}
+        st = run_writer(case, None)
+        mt = run_writer(case, (sched["order"], sched["eager"]))
+        print("single-threaded:", json.dumps(strip_w(st), default=str)[:2500])
+        print("multithreaded under the schedule:", json.dumps(strip_w(mt), default=str)[:2500], "root keys", mt.get("root_keys"))
+    print("recorded detail:", json.dumps(body.get("detail"), default=str)[:1500])
     return 0
